@@ -270,13 +270,16 @@ def r6(ctx):
             return None
         for err, want in rows:
             ex = Explorer(f, atom_of=atom_of)
-            outs = ex.run(hn, {"ERRNO": "@errno." + err})
+            env0 = {"ERRNO": "@errno." + err}
+            if isinstance(kill[0].args[0], ast.Name):
+                env0[ex.key_of(kill[0].args[0])] = "@PID"
+            outs = ex.run(hn, env0)
             got = set()
             for o in outs:
                 if o.kind == "raise":
                     got.add("propagate")
                 elif o.kind == "return":
-                    got.add("pid" if (isinstance(o.detail, str) and o.detail == "expr:" + PIDV) else ("stale" if o.detail in (None, "fall-off") else "?%r" % (o.detail,)))
+                    got.add("pid" if (isinstance(o.detail, str) and o.detail in ("expr:" + PIDV, "@PID")) else ("stale" if o.detail in (None, "fall-off") else "?%r" % (o.detail,)))
             ctx.check("C17.R6", got == {want}, key(f, "%s|%s" % (tag, err)), site(f, text="%s: errno %s" % (tag, err)), "%s with errno %s -> %s, required %s" % (tag, err, sorted(got), want), want)
     table(inner[0], [("EPERM", "pid"), ("ESRCH", "stale"), ("EINVAL", "propagate")], "kill() failed")
     table(outer[0], [("ENOENT", "stale"), ("EACCES", "propagate"), ("EISDIR", "propagate")], "open() failed")
